@@ -18,6 +18,10 @@ RULE = ('one run = one seeded program as in C11 extended by savepoints and '
         'of the final commit and that the temporary savepoint store is '
         'gone afterwards; an observer connection must never see savepoint '
         'data; non-trivial = >= 1 rollback; distinct = op trace')
+RULE += ('  '
+         'Later addition: one run in five with an object cache of 1 or '
+         '3 objects (evictions at savepoints), half of them without '
+         'looking at the objects right after a savepoint. ')
 BUDGET = {'quick': {'runs': 12000, 'wall': 300, 'chunk': 25},
           'thorough': {'runs': 900000, 'wall': 1200, 'chunk': 200}}
 ASSUMPTIONS = [
